@@ -3,6 +3,7 @@
 package main
 
 import (
+	"bytes"
 	"fmt"
 	"sort"
 	"strings"
@@ -121,6 +122,8 @@ type DrvRun struct {
 	After          fsx.Snap
 	OutsideChanged string
 	cancelDone     bool
+	// TreeChanged: the caller's tree (From-Root drivers) renders differently after the call than before it
+	TreeChanged string
 	// ActionsAfterCancel: writes and callbacks that began after the cancellation was complete
 	ActionsAfterCancel int
 	FSCalls            int
@@ -244,9 +247,17 @@ func (r *DrvRun) Body() {
 	fromRoot := strings.HasPrefix(op, "root:")
 	op = strings.TrimPrefix(op, "root:")
 	var root *gtree.Node
+	render := func() string { return "" }
 	if fromRoot {
 		root = sut.BuildRoot(d.Root)
+		// the caller's tree before and after the call, as plain simple-mode JSON (no branches involved)
+		render = func() string {
+			var b bytes.Buffer
+			gtree.OutputFromRoot(&b, root, gtree.WithEncodeJSON())
+			return b.String()
+		}
 	}
+	treeBefore := render()
 	switch op {
 	case "out-json":
 		opts = append(opts, gtree.WithEncodeJSON())
@@ -287,6 +298,9 @@ func (r *DrvRun) Body() {
 		err = gtree.WalkFromRoot(root, cb, opts...)
 	default:
 		panic("unknown op " + d.Op)
+	}
+	if treeBefore != render() {
+		r.TreeChanged = fmt.Sprintf("before the call: %safter the call:  %s", treeBefore, render())
 	}
 	if rd.release != nil {
 		rd.release.Close() // the call is back: the producer goes away, whoever still reads sees the end of input
